@@ -165,10 +165,9 @@ def ti_validity(model):
                 take(UNSPEC, "images:not-ini")
     for platform in sorted(model["images"]):
         if platform not in plats:
-            if platform == arch:
-                take(UNSPEC, "images.platform:arch-not-listed")
-            else:
-                return INVALID, "images.platform:unreferenced"
+            # also for the tree arch itself: the platform LIST of the object does not reference it (that the writer adds
+            # the arch to the list it emits does not make the object valid - and the reader rejects such a file, C07)
+            return INVALID, "images.platform:unreferenced" + ("-arch" if platform == arch else "")
         if not ini_name_ok(platform) or (isinstance(arch, str) and platform != arch and platform.endswith("-" + arch)):
             take(UNSPEC, "images.platform:name")
     s2 = model["stage2"]
